@@ -208,7 +208,10 @@ def write_evidence(mod, prop, tier, seed, agg, known_hits, new, others, inconclu
         evaluations=agg["cases"],
         distinct_nontrivial=len(agg["nontrivial"]),
         distinct_cases=len(agg["case_hashes"]),
-        rule=getattr(mod, "RULE", "") + " A case counts as non-trivial iff, while it ran, a deciding monitor "
+        rule=getattr(mod, "RULE", "") + " The workload classes were widened after the first build (DESIGN.md 8.4 lists every addition: value pools, "
+        "file forms, ask / edit in place / ask again sequences); in every check each shard also runs an unjudged battery of unrelated library calls "
+        "first or after five cases (process history) and every fifth case runs under pandas copy-on-write - see distinct_states for what was observed. "
+        "A case counts as non-trivial iff, while it ran, a deciding monitor "
         "judged at least one in-domain event; distinct = sha1 of the canonical case.",
         samples=agg["samples"] or [{"note": "no judged case"}],
         classes=dict(agg["classes"]),
